@@ -336,7 +336,7 @@ class C20(Scenario):
                 if arm == "faulted-init" and rng.random() < 0.5:
                     if rng.random() < 0.7:
                         n = int(10 ** rng.uniform(0, 3.3))
-                        fop = ["fault", "interrupt", {"n": n, "files": FAULT_FILES}, op]
+                        fop = ["fault", rng.choice(["interrupt", "interrupt", "memerr"]), {"n": n, "files": FAULT_FILES}, op]
                     else:
                         fop = ["fault", "stack", rng.randint(3, 12), op]
                     units.append({"n": 0, "k": "mkalg-fault", "op": fop})
@@ -356,7 +356,7 @@ class C20(Scenario):
                 if arm == "faulted-init" and rng.random() < 0.3:
                     # a dispatch that is cut short (possibly inside the table refresh that a
                     # late type triggers); the same application must work right afterwards
-                    fop = ["fault", "interrupt", {"n": int(10 ** rng.uniform(0, 2.6)), "files": FAULT_FILES + ["corealg/map_dag.py", "corealg/dag_traverser.py"]}, ["apply", None, a[0], e, mode]]
+                    fop = ["fault", rng.choice(["interrupt", "interrupt", "memerr"]), {"n": int(10 ** rng.uniform(0, 2.6)), "files": FAULT_FILES + ["corealg/map_dag.py", "corealg/dag_traverser.py"]}, ["apply", None, a[0], e, mode]]
                     units.append({"n": 0, "k": "apply-fault", "op": fop})
                 units.append({"n": 0, "k": "apply", "op": ["apply", None, a[0], e, mode]})
             elif k == "applyreal":
@@ -423,7 +423,7 @@ class C20(Scenario):
         uos = xp["unit_of_step"]
         main = {}
         twin = {}
-        faults = {"interrupt": {"configured": 0, "fired": 0}, "stack": {"configured": 0, "fired": 0}}
+        faults = {"interrupt": {"configured": 0, "fired": 0}, "memerr": {"configured": 0, "fired": 0}, "stack": {"configured": 0, "fired": 0}}
         for ev in history:
             si, node, op, r = ev
             if si < 0:
@@ -491,9 +491,9 @@ class C20(Scenario):
                         )
             elif u["k"] == "apply-fault":
                 r = main.get(ui, {})
-                faults["interrupt"]["configured"] += 1
+                faults[op[1]]["configured"] += 1
                 if "ok" in r and isinstance(r["ok"], dict) and r["ok"].get("fired"):
-                    faults["interrupt"]["fired"] += 1
+                    faults[op[1]]["fired"] += 1
                     probes["interrupt_landed_in_dispatch"] = probes.get("interrupt_landed_in_dispatch", 0) + 1
             elif u["k"] == "newexpr":
                 ts = {op[2][1]}
